@@ -69,27 +69,37 @@ def h_fixed(name, ty, N, k, mode, stubs, extra, uses=""):
                '    let v = r.unwrap();\n    let mut i = 0; while i < %d { assert!(v.as_slice()[i] == src[i], "FIXED_LEN_ROUNDTRIP: the decoded bytes equal the encoded ones"); i += 1; }') % N
     else:
         chk = 'assert!(r.is_err(), "FIXED_LEN_ENFORCED: decoding a fixed-length value from any other number of bytes fails instead of padding or truncating");'
+    # k == 0: the empty input is an empty sub-slice of a real object (a pointer to a zero-sized array is dangling, and CBMC's
+    # pointer-difference model then loses the slice length: symbolic reserve size, out of memory)
+    decl = "let src: [u8; %d] = kani::any();" % k if k else "let src0: [u8; 1] = kani::any(); let src: &[u8] = &src0[..0];"
+    if not k:
+        de = de.replace("&src", "src")
     return rs.hdr(stubs, extra=extra) + r'''
 fn %(name)s() {
     %(uses)s
-    let src: [u8; %(k)d] = kani::any();
-    wit!(W_0, &src);
+    %(decl)s
+    wit!(W_0, &src[..]);
     let r: Result<%(ty)s, MockErr> = <%(ty)s as Deserialize>::deserialize(%(de)s);
     kani::cover!(true, "deserialize returned");
     %(chk)s
 }
-''' % dict(name=name, ty=ty, k=k, de=de, chk=chk, uses=uses)
+''' % dict(name=name, ty=ty, k=k, de=de, chk=chk, uses=uses, decl=decl)
 
 
 def h_var(name, ty, k, mode, stubs, extra, uses=""):
     de = {"bytes": "MockDe { b: &src, as_seq: false, hint: None }",
           "seq_nohint": "MockDe { b: &src, as_seq: true, hint: None }",
           "seq_hint": "MockDe { b: &src, as_seq: true, hint: Some(%d) }" % k}[mode]
+    # k == 0: the empty input is an empty sub-slice of a real object (a pointer to a zero-sized array is dangling, and CBMC's
+    # pointer-difference model then loses the slice length: symbolic reserve size, out of memory)
+    decl = "let src: [u8; %d] = kani::any();" % k if k else "let src0: [u8; 1] = kani::any(); let src: &[u8] = &src0[..0];"
+    if not k:
+        de = de.replace("&src", "src")
     return rs.hdr(stubs, extra=extra) + r'''
 fn %(name)s() {
     %(uses)s
-    let src: [u8; %(k)d] = kani::any();
-    wit!(W_0, &src);
+    %(decl)s
+    wit!(W_0, &src[..]);
     let r: Result<%(ty)s, MockErr> = <%(ty)s as Deserialize>::deserialize(%(de)s);
     kani::cover!(true, "deserialize returned");
     assert!(r.is_ok(), "VAR_LEN_ROUNDTRIP: a variable-length container decodes any number of bytes");
@@ -97,7 +107,7 @@ fn %(name)s() {
     assert!(v.as_slice().len() == %(k)d, "VAR_LEN_ROUNDTRIP: all bytes are reproduced (no padding, no truncation)");
     let mut i = 0; while i < %(k)d { assert!(v.as_slice()[i] == src[i], "VAR_LEN_ROUNDTRIP: the decoded bytes equal the encoded ones"); i += 1; }
 }
-''' % dict(name=name, ty=ty, k=k, de=de, uses=uses)
+''' % dict(name=name, ty=ty, k=k, de=de, uses=uses, decl=decl)
 
 
 OBJ = r'''
